@@ -9,6 +9,7 @@ package gocql
 // driver's goroutines must be gone, a refresh that was waiting must return, and new queries must fail.
 
 import (
+	"context"
 	"fmt"
 	"net"
 	"strings"
@@ -455,5 +456,129 @@ func TestVxC17DiesBeforePooled(t *testing.T) {
 		Run: func(ci interface{}, k *vstats.Case) error {
 			return vxRunC17Die(ci.(*vxC17DieCase), k)
 		},
+	})
+}
+
+// ---------------------------------------------------------------------------------------------
+// Close called by several goroutines while closing takes time (connections whose Close is slow, as a TLS
+// connection's is towards a slow peer): whichever call returns, the session is closed at that moment.
+
+type vxC17TwiceCase struct {
+	Proto    int   `json:"proto"`
+	Hosts    int   `json:"hosts"`
+	NumConns int   `json:"num_conns"`
+	DelayMs  int   `json:"delay_ms"` // time one connection's Close takes
+	Stagger  []int `json:"stagger"`  // start of each Close call, ms after the first (2..3 calls)
+}
+
+type vxSlowDialer struct {
+	cl    *vnode.Cluster
+	delay time.Duration
+	open  int32
+}
+
+type vxSlowConn struct {
+	net.Conn
+	d    *vxSlowDialer
+	once sync.Once
+}
+
+func (d *vxSlowDialer) DialContext(ctx context.Context, network, addr string) (net.Conn, error) {
+	c, err := d.cl.DialContext(ctx, network, addr)
+	if err != nil {
+		return nil, err
+	}
+	atomic.AddInt32(&d.open, 1)
+	return &vxSlowConn{Conn: c, d: d}, nil
+}
+
+func (c *vxSlowConn) Close() error {
+	time.Sleep(c.d.delay)
+	err := c.Conn.Close()
+	c.once.Do(func() { atomic.AddInt32(&c.d.open, -1) })
+	return err
+}
+
+func vxRunC17Twice(c *vxC17TwiceCase, k *vstats.Case) error {
+	if c.Proto < 1 || c.Proto > 5 || c.Hosts < 1 || c.Hosts > 2 || c.NumConns < 1 || c.NumConns > 2 || c.DelayMs < 10 || c.DelayMs > 300 || len(c.Stagger) < 2 || len(c.Stagger) > 3 {
+		return nil
+	}
+	cl := vnode.NewCluster(vxSpecs(c.Hosts, 1))
+	d := &vxSlowDialer{cl: cl, delay: time.Duration(c.DelayMs) * time.Millisecond}
+	s, err := vxClusterConfig(cl, c.Proto, func(cfg *ClusterConfig) {
+		cfg.NumConns = c.NumConns
+		cfg.Dialer = d
+		cfg.PoolConfig.HostSelectionPolicy = RoundRobinHostPolicy()
+	}).CreateSession()
+	if err != nil {
+		return fmt.Errorf("harness: CreateSession: %v", err)
+	}
+	if err := s.Query("LIST x").Exec(); err != nil {
+		s.Close()
+		return fmt.Errorf("harness: query: %v", err)
+	}
+	type ret struct {
+		i      int
+		closed bool
+		open   int32
+		qerr   error
+		qtook  time.Duration
+		took   time.Duration
+	}
+	rets := make(chan ret, len(c.Stagger))
+	for i, ms := range c.Stagger {
+		go func(i, ms int) {
+			time.Sleep(time.Duration(ms) * time.Millisecond)
+			t0 := time.Now()
+			s.Close()
+			r := ret{i: i, took: time.Since(t0), closed: s.Closed(), open: atomic.LoadInt32(&d.open)}
+			q0 := time.Now()
+			r.qerr = s.Query("LIST y").Exec()
+			r.qtook = time.Since(q0)
+			rets <- r
+		}(i, ms)
+	}
+	early := false
+	for range c.Stagger {
+		select {
+		case r := <-rets:
+			if r.took < time.Duration(c.DelayMs)*time.Millisecond/2 {
+				early = true
+			}
+			if !r.closed || r.open != 0 {
+				return fmt.Errorf("Close call %d (started %d ms after the first, one connection's Close takes %d ms) returned after %v: Session.Closed() = %v, %d connection(s) still open - another Close was still at work",
+					r.i, c.Stagger[r.i], c.DelayMs, r.took.Round(time.Millisecond), r.closed, r.open)
+			}
+			if r.qerr != ErrSessionClosed {
+				return fmt.Errorf("Close call %d returned; a query issued then failed with %v after %v, want %v at once", r.i, r.qerr, r.qtook.Round(time.Millisecond), ErrSessionClosed)
+			}
+		case <-time.After(20 * time.Second):
+			return fmt.Errorf("a Close call did not return within 20 s")
+		}
+	}
+	k.NonTrivial()
+	if early {
+		k.Class("twice: a call returned at once (the session was closed already)")
+	} else {
+		k.Class("twice: every call waited")
+	}
+	return nil
+}
+
+func TestVxC17CloseTwice(t *testing.T) {
+	vx.Check(t, vx.Prop{
+		ID: "C17", Part: "TestVxC17CloseTwice",
+		Rule: "protocol 1..5, 1..2 hosts x 1..2 connections whose Close takes 10..300 ms; 2..3 goroutines call Session.Close, started 0..400 ms apart (inside and after the time the first call needs); oracle: when any of the calls returns, Session.Closed() is true, no connection is open any more and a query fails with ErrSessionClosed; every case is non-trivial; distinct by the case",
+		Draw: func(t *rapid.T) interface{} {
+			c := &vxC17TwiceCase{Proto: rapid.IntRange(1, 5).Draw(t, "proto"), Hosts: rapid.IntRange(1, 2).Draw(t, "hosts"), NumConns: rapid.IntRange(1, 2).Draw(t, "numconns"),
+				DelayMs: rapid.SampledFrom([]int{20, 80, 200}).Draw(t, "delay")}
+			c.Stagger = []int{0}
+			for i := rapid.IntRange(1, 2).Draw(t, "more"); i > 0; i-- {
+				c.Stagger = append(c.Stagger, rapid.SampledFrom([]int{0, 1, 10, 50, 120, 400}).Draw(t, "at"))
+			}
+			return c
+		},
+		New: func() interface{} { return &vxC17TwiceCase{} },
+		Run: func(ci interface{}, k *vstats.Case) error { return vxRunC17Twice(ci.(*vxC17TwiceCase), k) },
 	})
 }
